@@ -115,7 +115,7 @@ def run(argv):
     tier, seed = tier_and_seed(argv)
     chk = Check("C10", tier, seed, MODULES, THEOREMS, RULE)
     chk.prove()
-    backends = ["dense", "rosenbrock4"] if tier == "quick" else ["dense", "sparse", "rosenbrock4"]
+    backends = ["dense", "sparse", "rosenbrock4"]
     jobs, reqs, pend = [], [], []
     for label, files, fmts, gmodel, extra, E in combos(chk, tier):
         Species.reset()
